@@ -160,12 +160,6 @@ Proof.
   bprop. repeat split; auto.
 Qed.
 
-Lemma core_accept_pc0 cfg i sv f l sv' out ltr mt prev prevT es mc j d :
-  server_core cfg i sv f l = HR sv' out ltr -> s_m sv = Some (APQ mt prev prevT es mc j d) ->
-  s_role sv' = Follower -> s_log sv' = firstn prev (s_log sv) ++ es -> s_log sv' <> s_log sv \/ s_term sv' <> s_term sv \/ s_role sv <> Follower ->
-  True.
-Proof. auto. Qed.
-
 Lemma core_log_cases2 cfg i sv f l sv' out ltr :
   server_core cfg i sv f l = HR sv' out ltr ->
   s_log sv' = s_log sv \/
